@@ -113,6 +113,59 @@ func gStmt(s gast.Statement) string {
 
 var binops = map[string]bool{"+": true, "-": true, "*": true, "/": true, "%": true, "==": true, "!=": true, "<": true, ">": true, "<=": true, ">=": true, "&&": true, "||": true}
 
+var relational = map[string]bool{"<": true, ">": true, "<=": true, ">=": true}
+
+// curSrc is the text handed to goja (with wrapper); node Idx values are 1-based offsets into it.
+var curSrc string
+
+// parenthesised reports whether node r (which starts after offset from) is wrapped as a whole by a
+// parenthesis opened between from and r's first byte.
+func parenthesised(from int, r gast.Expression) bool {
+	lo, hi := int(r.Idx0())-1, int(r.Idx1())-1
+	if from < 0 || lo > len(curSrc) || hi > len(curSrc) || from > lo || lo > hi {
+		return false
+	}
+	depth := 0
+	scan := func(a, b int, trackMin bool) int {
+		min := 1 << 30
+		for i := a; i < b; i++ {
+			switch c := curSrc[i]; {
+			case c == '/' && i+1 < b && curSrc[i+1] == '/':
+				for i < b && curSrc[i] != '\n' {
+					i++
+				}
+			case c == '\'' || c == '"' || c == '`':
+				i++
+				for i < b && curSrc[i] != c {
+					if curSrc[i] == '\\' {
+						i++
+					}
+					i++
+				}
+			case c == '(':
+				depth++
+			case c == ')':
+				depth--
+				if !trackMin && depth < 0 {
+					depth = 0 // closes a parenthesis of the left operand
+				}
+			}
+			if trackMin && depth < min {
+				min = depth
+			}
+		}
+		return min
+	}
+	scan(from, lo, false)
+	if depth <= 0 {
+		return false
+	}
+	open := depth
+	min := scan(lo, hi, true)
+	_ = open
+	return min >= 1
+}
+
 func gExpr(e gast.Expression) string {
 	switch e := e.(type) {
 	case *gast.Identifier:
@@ -149,6 +202,30 @@ func gExpr(e gast.Expression) string {
 		op := e.Operator.String()
 		if !binops[op] {
 			out("binary " + op)
+		}
+		if relational[op] {
+			// goja quirk (inherited from otto): relational operators are parsed right-recursively, so
+			// `a < b < c` comes back as a < (b < c). ECMAScript says left-associative. Re-associate the
+			// right spine unless the right operand was explicitly parenthesised in the source.
+			operands := []gast.Expression{e.Left}
+			ops := []string{}
+			cur := e
+			for {
+				ops = append(ops, cur.Operator.String())
+				r, ok := cur.Right.(*gast.BinaryExpression)
+				if ok && relational[r.Operator.String()] && !parenthesised(int(cur.Left.Idx1())-1, r) {
+					operands = append(operands, r.Left)
+					cur = r
+					continue
+				}
+				operands = append(operands, cur.Right)
+				break
+			}
+			acc := gExpr(operands[0])
+			for i, o := range ops {
+				acc = fmt.Sprintf("(bin %s %s %s)", o, acc, gExpr(operands[i+1]))
+			}
+			return acc
 		}
 		return fmt.Sprintf("(bin %s %s %s)", op, gExpr(e.Left), gExpr(e.Right))
 	case *gast.AssignExpression:
@@ -346,7 +423,8 @@ func xExpr(e xast.Expression) string {
 // GShape parses src with goja (as a function body, so that `return` is legal) and returns the
 // canonical shape. ok=false: rejected by goja (why="reject: ...") or outside the subset.
 func GShape(src string) (shape string, why string, ok bool) {
-	prog, err := gparser.ParseFile(nil, "", "(function(){\n"+src+"\n})", 0)
+	curSrc = "(function(){\n" + src + "\n})"
+	prog, err := gparser.ParseFile(nil, "", curSrc, 0)
 	if err != nil {
 		return "", "reject", false
 	}
